@@ -104,7 +104,7 @@ for _h in HARNESSES:
 SETUP_HARNESS["hexane"] = "codec::verif_kani::codec_varbuf_bytes"
 
 PROPS["C35"] = {
-    "decided": "wire level of hexane: the varint codec for ALL u64 / i64 and every byte string up to 11 bytes (and its equality with reference readers), every RleValue pack/unpack pair, length prefixes near u64::MAX, and the load-time contract of RLE columns - whatever rle_validate_encoding accepts (every 2-5 byte slab of a u64 / nullable u64 column) the unchecked decoder walks without panicking, yielding exactly the announced number of items; boolean columns: validator total, decoder and nth equal to an independent reading of the run lengths (every 2-4 byte slab); the streaming loaders' item counts, accumulated from untrusted run lengths, are refused instead of overflowing",
+    "decided": "wire level of hexane: the varint codec for ALL u64 / i64 and every byte string up to 11 bytes (and its equality with reference readers), every RleValue pack/unpack pair, length prefixes near u64::MAX, and the load-time contract of RLE columns - whatever rle_validate_encoding accepts (every 2-5 byte slab of a u64 / nullable u64 column) the unchecked decoder walks without panicking, yielding exactly the announced number of items; boolean columns: validator total, decoder and nth equal to an independent reading of the run lengths (every 2-4 byte slab); the streaming loaders' item counts, accumulated from untrusted run lengths, are refused instead of overflowing; a 10-byte run header of any value (i64::MIN included) is handled without overflow",
     "outside": ["Column::load / save / splice, the slab B-tree and slab cutting (3 pushes into a Column do not finish in 10 min)", "delta columns; the streaming loaders RleLoadIter / BoolLoadIter as a whole (they build Vec<Slab>: out of memory / past 900 s) - the validator harnessed is ColumnEncoding::validate_encoding, which shares try_next_segment + validate_after with the RLE loader", "string slabs and the RLE skipping read nth() (past 1800 s)"],
 }
 PROPS["C39"] = {
